@@ -70,8 +70,30 @@ def compare(t, rows, select, like_fold=True):
     return (None, {"n_expected": len(exp), "unspec_rows": len(us)}, flags, nontrivial)
 
 
+def case_twin(t):
+    """The same filter with the letter case of its string-literal contents flipped: a
+    different filter (string comparison is case sensitive) whose text equals the original
+    one ignoring case - exercises state keyed too coarsely across calls."""
+    def f(x):
+        if x[0] == "lit" and x[1] == "str" and x[2].upper() != x[2]:
+            return ("lit", "str", x[2].upper())
+        return x
+    return T.map_term(f, t)
+
+
 def judge(ctx, t, rng, select, keys_fn, cls, like_fold=True, cap=400, extra_case=None,
-          profile=None):
+          profile=None, twin=True):
+    ok = _judge(ctx, t, rng, select, keys_fn, cls, like_fold, cap, extra_case, profile)
+    if ok and twin and ctx.counters.get("evaluations", 0) % 3 == 0:
+        t2 = case_twin(t)
+        if t2 != t:
+            ctx.count("case_twins")
+            _judge(ctx, t2, rng, select, keys_fn, cls + ":case-twin", like_fold, cap, extra_case, None)
+    return ok
+
+
+def _judge(ctx, t, rng, select, keys_fn, cls, like_fold=True, cap=400, extra_case=None,
+           profile=None):
     ctx.count("evaluations")
     cols = scalar.columns_of(t)
     rows = R.rows_for(cols, rng, cap)
